@@ -133,9 +133,50 @@ func (p c09) misfit(c *core.Ctx) {
 	c.Nontrivial(fmt.Sprintf("misfit|%d|%v|%v|%s", kind, optional, plan, r.Outcome()))
 }
 
+// mixin: required points that a component takes from a package-private embedded mix-in fail the start
+// like any other required point.
+func (p c09) mixin(c *core.Ctx) {
+	g := world.NewG(c.Rng)
+	variant := c.Rng.Intn(3) // 0: everything present, 1: the named component is missing, 2: the key is missing
+	if variant != 1 {
+		g.AddNode([]int{8, 1, 0}[c.Rng.Intn(3)], "mix-dep")
+	}
+	g.AddNode(world.TypesRunner[c.Rng.Intn(len(world.TypesRunner))], g.FreshName(1))
+	g.ShuffleOrders()
+	if variant != 2 {
+		g.Sc.Config = "mix:\n  key: v\n"
+	} else {
+		g.Sc.Config = "mix:\n  other: v\n"
+	}
+	h := &world.MixinHolder{}
+	r := world.Start(g.Sc, world.Options{Extra: []any{h}})
+	c.Count("starts", 1)
+	c.Count("mixin_starts", 1)
+	detail := failDetail(g.Sc, r, map[string]any{"variant (0 satisfiable, 1 component missing, 2 key missing)": variant})
+	if abnormal(r.Outcome()) {
+		c.Fail("", "component with an embedded package-private mix-in: "+core.Short(r.OutcomeDetail(), 300), detail)
+		return
+	}
+	runs := countEvents(r, "run")
+	if variant == 0 {
+		if r.Outcome() != "ok" || h.Dep == nil || h.Cfg != "v" || h.Opt != nil {
+			c.Fail("", fmt.Sprintf("satisfiable mix-in points: outcome %s, Dep set=%v Cfg=%q Opt nil=%v", r.Outcome(), h.Dep != nil, h.Cfg, h.Opt == nil), detail)
+			return
+		}
+	} else if r.Outcome() != "error" || runs != 0 {
+		c.Fail("", fmt.Sprintf("a required point inside an embedded package-private mix-in cannot be satisfied, but App.Run returned %s and %d runner(s) ran", r.Outcome(), runs), detail)
+		return
+	}
+	c.Nontrivial(fmt.Sprintf("mixin|%d|%s", variant, g.Sc.GraphSig()))
+}
+
 func (p c09) Run(c *core.Ctx) {
 	if c.Index%5 == 4 {
 		p.misfit(c)
+		return
+	}
+	if c.Index%5 == 2 && c.Index%2 == 0 {
+		p.mixin(c)
 		return
 	}
 	sc := RandomGraph(c.Rng, GraphOpts{MinN: 2, MaxN: 9, Types: world.TypesAll, PCycle: 0.6, Chords: 2,
